@@ -150,10 +150,30 @@ def generator_defaults(w, modname, fn):
 ALIASED = {}
 
 
+def default_opts(w, call):
+    """The option dict a generator hands to CasADi when called without keywords (abstract run; file-system questions
+    answered False).  None when the run cannot be interpreted."""
+    before = len(cm.CodeGeneratorVal.registry)
+    old_or = w.it.branch_oracle
+    w.it.branch_oracle = lambda stub, node: False
+    try:
+        call({})
+    except (InterpRaise, Unsupported):
+        return None
+    finally:
+        w.it.branch_oracle = old_or
+    gs = cm.CodeGeneratorVal.registry[before:]
+    del cm.CodeGeneratorVal.registry[before:]
+    return dict(gs[0].opts) if gs and isinstance(gs[0].opts, dict) else None
+
+
 def check_accepted_combinations(w, rep, modname, fn, call):
     """Every keyword the generator accepts (assert k in p.keys()) must keep CasADi's contract satisfiable."""
     d, where = generator_defaults(w, modname, fn)
     label = "%s.%s" % (modname.split(".")[-1] if modname != "cyecca.estimate.attitude.algorithms" else "algorithms", fn)
+    if d is None:
+        # the table is not a literal in this function (built by a helper, ...): read it off a default run
+        d = default_opts(w, call)
     if d is None:
         rep.incomplete("C09.options", "%s option table" % label, "no literal option dict p = {...}", where=where)
         return
@@ -239,8 +259,31 @@ def run(w, rep, tier):
         # merges
         updates = []
         for st in ast.walk(main):
-            if isinstance(st, ast.Call) and isinstance(st.func, ast.Attribute) and st.func.attr == "update" and st.args and isinstance(st.args[0], ast.Call) and isinstance(st.args[0].func, ast.Name):
+            if isinstance(st, ast.Call) and isinstance(st.func, ast.Attribute) and st.func.attr == "update" and st.args and isinstance(st.args[0], ast.Call) and isinstance(st.args[0].func, ast.Name) \
+                    and st.args[0].func.id.startswith("derive_"):
                 updates.append(st.args[0].func.id)
+        # ... and, whatever the spelling of the export list (a loop over a tuple of derive functions, a helper), the
+        # derive_* functions of this module that are actually CALLED while the block runs
+        called = []
+
+        def hook(f, env_):
+            if f.name.startswith("derive_") and f.module == modname:
+                called.append((f.name, len(it.stack)))
+        old_hook, old_or = it.trace_calls, it.branch_oracle
+        it.trace_calls, it.branch_oracle = hook, (lambda stub, node: False)
+        nreg = len(cm.CodeGeneratorVal.registry)
+        try:
+            it.exec_block(main.body, Env({}, mod), modname)
+        except (InterpRaise, Unsupported):
+            pass
+        finally:
+            it.trace_calls, it.branch_oracle = old_hook, old_or
+            del cm.CodeGeneratorVal.registry[nreg:]
+        top = min((d_ for _, d_ in called), default=0)
+        for nm, d_ in called:
+            if d_ == top and nm not in updates:
+                updates.append(nm)
+        nested = {nm for nm, d_ in called if d_ > top}
         keys = {}
         for fn in updates:
             if fn not in mod:
@@ -259,7 +302,7 @@ def run(w, rep, tier):
                 rep.ok("C09.merge", "%s: %s is exported" % (cfile, d))
             elif (modname, d) in EXEMPT:
                 rep.na("C09.merge", "%s: %s is exported" % (cfile, d), "exempt: " + EXEMPT[(modname, d)])
-            elif any(d == x for x in _called_by_exported(sf, updates)):
+            elif d in nested or any(d == x for x in _called_by_exported(sf, updates)):
                 rep.ok("C09.merge", "%s: %s is exported (through another derive_*)" % (cfile, d))
             else:
                 rep.fail("C09.merge", "%s: %s is exported" % (cfile, d), "derive function is neither merged into the export list nor exempted: its functions are dropped from the generated C file", where=where)
@@ -312,8 +355,12 @@ def run(w, rep, tier):
     # sibling option tables
     tabs = {}
     for modname in [m for m, _ in MODEL_MODULES] + ["cyecca.codegen"]:
-        d, _ = generator_defaults(w, modname, "generate_code")
-        tabs[modname] = d
+        # compared as what each copy hands to CasADi by default (however the table is spelled)
+        if modname == "cyecca.codegen":
+            tabs[modname] = default_opts(w, lambda kw: w.callf(cg["generate_code"], {"s": {}}, "dir", **kw))
+        else:
+            m_ = w.mod(modname)
+            tabs[modname] = default_opts(w, lambda kw, m_=m_: w.callf(m_["generate_code"], {}, filename="x.c", dest_dir="d", **kw))
     ref = tabs["cyecca.codegen"]
     for modname, d in tabs.items():
         rep.check("C09.options", "%s.generate_code option table = codegen.generate_code option table" % modname.split(".")[-1], d == ref, "option tables of the generator copies differ: %s vs %s" % (d, ref),
